@@ -22,6 +22,24 @@ func (fc *FnCtx) execCall(fr *Frame, st *State, reach string, call ssa.CallInstr
 	com := call.Common()
 	resT := com.Signature().Results()
 	var args []Val
+	if fr.parent == nil && fc.con != nil && len(fc.con.AtCall) > 0 {
+		name := ""
+		if com.IsInvoke() {
+			name = com.Method.Name()
+		} else if sc := com.StaticCallee(); sc != nil {
+			name = sc.Name()
+		}
+		for _, ac := range fc.con.AtCall {
+			if ac.Field != name {
+				continue
+			}
+			env := fc.specEnv(st, fc.oldSt, fc.paramVars(fr), fr.fn.Pkg.Pkg, fr, ac.Clause.Text)
+			for _, part := range splitConj(ac.Clause.Expr) {
+				t := env.evalBool(part)
+				fc.oblige(fr, "atcall", name+": "+clauseName(ac.Clause), reach, t, env.quant, nil)
+			}
+		}
+	}
 	if com.IsInvoke() {
 		recv := fc.value(fr, st, com.Value)
 		for _, a := range com.Args {
@@ -115,7 +133,7 @@ func (fc *FnCtx) unknownCall(fr *Frame, st *State, reach, what string, resT *typ
 			case KSlice:
 				fc.havocElems(st, a)
 			case KAddr:
-				if a.A.Kind == AObj && fc.eng.isRepoType(a.A.Root) {
+				if a.A.Kind == AObj && fc.eng.isRepoType(a.A.T) {
 					ptrArg = true
 				}
 			case KIface:
@@ -416,7 +434,6 @@ func (fc *FnCtx) runDefers(fr *Frame, st *State, reach string) {
 		*st = *merged
 	}
 }
-
 
 // ---------- interface method calls ----------
 
